@@ -289,7 +289,7 @@ def ilist(xs) -> str:
 
 # ------------------------------------------------------------------ devices: copies, subclass, process environment
 COPY_MODES = ["copy", "deepcopy", "pickle"]
-NO_DEV = dict(ocopy=None, scopy=None, ecopy=None, sub=False, env=False)
+NO_DEV = dict(ocopy=None, scopy=None, ecopy=None, sub=False, env=False, by=False)
 
 
 def cp(obj, mode):
@@ -309,7 +309,7 @@ def gen_dev(rng):
     return dict(ocopy=rng.choice(COPY_MODES) if rng.random() < 0.35 else None,
                 scopy=rng.choice(COPY_MODES) if rng.random() < 0.12 else None,
                 ecopy=rng.choice(COPY_MODES) if rng.random() < 0.12 else None,
-                sub=rng.random() < 0.15, env=rng.random() < 0.10)
+                sub=rng.random() < 0.15, env=rng.random() < 0.10, by=rng.random() < 0.30)
 
 
 def dev_tag(dev):
@@ -382,7 +382,28 @@ def real_obj(sample, edges, dev=NO_DEV):
         return cp(x, mode) if isinstance(x, (list, np.ndarray)) else x
     obj = cc_class(dev.get("sub"))(events_multiplicity=inp(sample, dev.get("scopy")),
                                    centrality_bins=inp(edges, dev.get("ecopy")))
+    if dev.get("by"):
+        bystanders(obj)
     return cp(obj, dev.get("ocopy"))
+
+
+def bystanders(obj):
+    """BYSTANDER device: the object's *other* public methods are called between construction and everything that is
+    judged (stored minima/maxima, cleaned edges, lookups).  The statement makes the class a function of (sample,
+    edges) only, so a call of a reporting method must not change any of it.  Methods whose arguments are not known
+    here are left alone; a bystander that raises is not judged (it is not the property's subject)."""
+    import tempfile
+    for name in sorted(n for n in dir(type(obj)) if not n.startswith("_") and n != "get_centrality_class"):
+        f = getattr(obj, name, None)
+        if not callable(f):
+            continue
+        try:
+            if name == "output_centrality_classes":
+                with tempfile.TemporaryDirectory(prefix="c19by_") as d:
+                    f(os.path.join(d, "classes.dat"))
+                    f(os.path.join(d, "classes.dat"))
+        except Exception:  # noqa: BLE001
+            pass
 
 
 def real_cls(obj, q):
@@ -731,8 +752,9 @@ def correspond(ctx):
                 "copy is what is judged, against the same model and reference, and against the plainly constructed original); "
                 "the class is a trivial subclass; construction and queries run after os.chdir into a fresh empty directory with "
                 "non-default numpy print options, np.seterr(all='warn') and advanced global random / np.random states, which "
-                "(with the directory's contents) must be left as found.  Not applied: output_centrality_classes (the statement "
-                "speaks of get_centrality_class, dNchdetaMin_/Max_ and the cleaned edges only) and text variants (the surface "
+                "(with the directory's contents) must be left as found; BYSTANDER: the object's other public method "
+                "(output_centrality_classes, twice, into a temp dir) is called between construction and everything judged - "
+                "stored values and lookups must be those of the untouched object.  Not applied: text variants (the surface "
                 "takes no text).  Restriction: the numbers compared with each other "
                 "in one case (multiplicities + queries; edges among themselves) are exact in every floating type occurring "
                 "among them, and where a value is not a double int64-family and uint64 are not mixed - i.e. magnitudes "
